@@ -352,6 +352,7 @@ def main(tier, seed):
     stats.extra["graph_states"], stats.extra["graph_edges"] = len(g.states), g.n_edges
     for cn in (["int", "str", "tuple"] if thorough else ["int", "str"]):
         core.replay_graph_generic(g, Driver(cn, U), verdict, stats)
+    core.replay_walks(g, Driver("int", U), verdict, stats, n_walks=4000 if thorough else 500, length=30, seed=seed)
     canary(stats)
     traces = record(16, 1500, seed, 600) + record(16, 400, seed + 1, 40) if not thorough else \
         record(48, 6000, seed, 600) + record(32, 2000, seed + 1, 60) + record(8, 20000, seed + 2, 2500)
